@@ -190,7 +190,7 @@ func VH_C13_GroupIterators() {
 	external := vhChoose("external", 2) == 1
 	deep := b.levels > 1 && vhChoose("deep", 2) == 1
 	vhGroupMulti = vhChoose("multi", 2) == 1
-	m, model, _ := vhBuildGroupMapDeep(storage, addr, b, nsingle, gsize, gpos, external, deep)
+	m, model, gidx := vhBuildGroupMapDeep(storage, addr, b, nsingle, gsize, gpos, external, deep)
 	vhGroupMulti = false
 	n := len(model)
 	wantK := make([]uint64, n)
@@ -198,7 +198,44 @@ func VH_C13_GroupIterators() {
 	for i, kv := range model {
 		wantK[i], wantV[i] = kv.key.id, kv.val
 	}
-	switch vhChoose("flavour", 7) {
+	switch vhChoose("flavour", 8) {
+	case 7: // loaded values with the external group slab and/or leaves not loaded: in-order subsequence
+		storage.unloaded = map[SlabID]bool{}
+		skip := map[uint64]bool{} // key ids not expected
+		if root, ok := m.root.(*MapMetaDataSlab); ok {
+			pos := 0
+			for _, h := range root.childrenHeaders {
+				slab, _, _ := storage.BasicSlabStorage.Retrieve(h.slabID)
+				cnt := vhKeysInElements(storage.BasicSlabStorage, slab.(*MapDataSlab).elements)
+				if vhChoose("leafunloaded", 2) == 1 {
+					storage.unloaded[h.slabID] = true
+					for k := pos; k < pos+cnt; k++ {
+						skip[wantK[k]] = true
+					}
+				}
+				pos += cnt
+			}
+		}
+		if external && vhChoose("groupunloaded", 2) == 1 {
+			// find the external group slab: the only data slab flagged as a collision group
+			for id, slab := range storage.Slabs {
+				if ds, ok := slab.(*MapDataSlab); ok && ds.collisionGroup {
+					storage.unloaded[id] = true
+				}
+			}
+			for _, gi := range gidx {
+				skip[model[gi].key.id] = true
+			}
+		}
+		var wk []uint64
+		for _, id := range wantK {
+			if !skip[id] {
+				wk = append(wk, id)
+			}
+		}
+		k, _ := vhCollectMap("loaded", m.IterateReadOnlyLoadedValues)
+		vhSameSeq(k, wk, "loaded values: in-order subsequence of the loaded part")
+
 	case 0:
 		k, v := vhCollectMap("mutable", func(fn MapEntryIterationFunc) error { return m.Iterate(vhCompare, vhHip, fn) })
 		vhSameSeq(k, wantK, "mutable keys")
@@ -256,4 +293,35 @@ func VH_C13_GroupIterators() {
 		vhAssert(vhStorageSlabCount(storage.BasicSlabStorage) == 1, "emptying releases every auxiliary slab (external group, leaves)")
 	}
 	vhReach("group-iter-done")
+}
+
+// vhKeysInElements: number of keys stored under an element list, descending
+// into collision groups of any depth.
+func vhKeysInElements(storage SlabStorage, es elements) int {
+	n := 0
+	switch x := es.(type) {
+	case *hkeyElements:
+		for _, el := range x.elems {
+			n += vhKeysInElement(storage, el)
+		}
+	case *singleElements:
+		n += len(x.elems)
+	}
+	return n
+}
+
+func vhKeysInElement(storage SlabStorage, el element) int {
+	switch x := el.(type) {
+	case *singleElement:
+		return 1
+	case *inlineCollisionGroup:
+		return vhKeysInElements(storage, x.elements)
+	case *externalCollisionGroup:
+		slab, ok, _ := storage.Retrieve(x.slabID)
+		if !ok {
+			return 0
+		}
+		return vhKeysInElements(storage, slab.(*MapDataSlab).elements)
+	}
+	return 0
 }
